@@ -174,7 +174,7 @@ class MapfileTransformer(Transformer):
             # allow for multipart features in a nested list
             existing_points = composite_dict[key_name]
 
-            if calculate_depth(existing_points) <= 2:
+            if is_single_part(existing_points):
                 composite_dict[key_name] = [existing_points]
 
             if key_name not in composite_dict:
@@ -797,6 +797,20 @@ class Canonize(Transformer_InPlace):
         tree.data = "composite"
         tree.children.insert(0, composite_type)
         return tree
+
+
+def is_single_part(points):
+    """
+    Check if points are the pairs of a single POINTS block, rather than a list
+    of parts. A part can be empty, a pair can not - so an empty POINTS block
+    is not mistaken for a pair
+    """
+    return all(
+        isinstance(p, (tuple, list))
+        and len(p) > 0
+        and not isinstance(p[0], (tuple, list))
+        for p in points
+    )
 
 
 def calculate_depth(iterable):
